@@ -30,6 +30,10 @@ Features == <<
   [label |-> "absolute-get",        f |-> <<R("absolute", 3, "get", "o0", "unsigned")>>, obs |-> <<>>],
   [label |-> "absolute-get-reg",    f |-> <<R("absolute", 7, "get", "p0r0", "unsigned")>>, obs |-> <<>>],
   [label |-> "absolute-show",       f |-> <<R("absolute", 7, "show", "p0r0", "unsigned")>>, obs |-> <<>>],
+  \* an object that is reported AND shown, next to another shown object (the show rules come after the get)
+  [label |-> "absolute-show-of-reported-object", f |-> <<R("relative", 1, "get", "o0", "unsigned"), R("absolute", 4, "show", "i0", "unsigned"), R("absolute", 6, "show", "o0", "unsigned")>>, obs |-> <<>>],
+  [label |-> "absolute-show-of-reported-register", f |-> <<R("relative", 1, "get", "p0r0", "unsigned"), R("absolute", 5, "show", "p0r1", "unsigned"), R("absolute", 7, "show", "p0r0", "unsigned")>>, obs |-> <<>>],
+  [label |-> "absolute-show-two-objects", f |-> <<R("absolute", 4, "show", "p0r0", "unsigned"), R("absolute", 4, "show", "o0", "unsigned")>>, obs |-> <<>>],
   [label |-> "absolute-get-beyond", f |-> <<R("absolute", 500, "get", "o0", "unsigned")>>, obs |-> <<>>],
   [label |-> "relative-get",        f |-> <<R("relative", 2, "get", "o0", "unsigned")>>, obs |-> <<>>],
   [label |-> "relative-show",       f |-> <<R("relative", 5, "show", "p0r0", "unsigned")>>, obs |-> <<>>],
